@@ -192,6 +192,8 @@ def run_check(pid, tier, seed, replay=None, jobs=None):
     shrunk = {}
     if confirmed and hasattr(mod, "shrink") and not replay and not os.environ.get("VERIF_NOSHRINK"):
         for sc, r, vbad in confirmed[:2]:
+            if r.get("wall", 0) > 45:
+                continue        # long executions (starvation / refresh-rate scenarios) are not worth eight re-runs
             keys = {k for k, _ in vbad}
             best, tries = sc, 0
             improved = True
